@@ -93,6 +93,61 @@ func runC19(p *core.Prog, r *core.Report) {
 		r.Fail("C19-R1", "anchor fields", "-", "cannot identify wrapped writer / size (via Size()) / status channel (via Status())")
 		return
 	}
+	// other fields that hold the same wrapped writer seen through another interface (`pw.sw, _ = w.(io.StringWriter)`): every
+	// assignment of such a field is on a freshly built ProgressWriter and stores a type assertion of the very value stored in wr
+	wrNames := map[string]bool{"field:ProgressWriter." + wr.Name(): true}
+	for _, f := range structFields(n) {
+		if f == wr || !types.IsInterface(f.Type()) {
+			continue
+		}
+		writes, okAll := 0, true
+		for _, ref := range sx.FieldRefs(p.ModuleFuncs(), f) {
+			fa, ok := ref.Instr.(*ssa.FieldAddr)
+			if !ok {
+				continue
+			}
+			for _, a := range sx.Accesses(fa) {
+				if a.Kind != "write" {
+					continue
+				}
+				writes++
+				if !sx.IsFreshObject(ref.Base) {
+					okAll = false
+					continue
+				}
+				// the value stored in wr of the same object
+				var wrapped ssa.Value
+				for _, r2 := range sx.FieldRefs([]*ssa.Function{ref.Fn}, wr) {
+					if fa2, ok := r2.Instr.(*ssa.FieldAddr); ok && r2.Base == ref.Base {
+						for _, a2 := range sx.Accesses(fa2) {
+							if a2.Kind == "write" {
+								wrapped = a2.Val
+							}
+						}
+					}
+				}
+				v := a.Val
+				if e, ok := v.(*ssa.Extract); ok && e.Index == 0 {
+					v = e.Tuple
+				}
+				ta, ok := v.(*ssa.TypeAssert)
+				if !ok || wrapped == nil || ta.X != wrapped {
+					okAll = false
+				}
+			}
+		}
+		if writes > 0 && okAll {
+			wrNames["field:ProgressWriter."+f.Name()] = true
+		}
+	}
+	isWrapped := func(v ssa.Value) bool {
+		for o := range sx.Origins(v) {
+			if wrNames[o] {
+				return true
+			}
+		}
+		return false
+	}
 	// all rules run on the package's inlined views: private helpers (sum, account/offer, …) are seen in place
 	var fns []*ssa.Function
 	for _, v := range pkgViews(p, "util/ioutil") {
@@ -130,14 +185,14 @@ func runC19(p *core.Prog, r *core.Report) {
 			// io.WriteString(w, s) is the standard library's spelling of "WriteString if available, else Write": one forwarding
 			// call with the same (n, err) contract
 			if sx.CalleeName(c) == "io.WriteString" && len(cc.Args) == 2 {
-				return sx.Origins(cc.Args[0])["field:ProgressWriter."+wr.Name()]
+				return isWrapped(cc.Args[0])
 			}
 			return false
 		}
 		if cc.Method.Name() != "Write" && cc.Method.Name() != "WriteString" {
 			return false
 		}
-		return sx.Origins(cc.Value)["field:ProgressWriter."+wr.Name()]
+		return isWrapped(cc.Value)
 	}
 	isAdd := func(c ssa.CallInstruction) bool {
 		callee := sx.StaticCallee(c)
@@ -369,18 +424,54 @@ func runC19(p *core.Prog, r *core.Report) {
 	if len(closes) == 0 {
 		r.Fail("C19-R3", "Close closes the status channel", p.FuncPos(cl), "no close(status) in Close")
 	}
-	for i, c := range closes {
-		ok := false
-		for _, s := range sends {
-			if !sx.Origins(s.Chan)["field:ProgressWriter."+status.Name()] || !sx.Origins(s.X)["field:ProgressWriter."+size.Name()] {
-				continue
-			}
-			// the send dominates the close
-			if sx.MustPass(cl, nil, c, sx.Cut{Instrs: map[ssa.Instruction]bool{s: true}}) {
-				ok = true
+	// deliveries of the final total in Close: blocking sends of the size on the status channel, and the taken arm of a
+	// non-blocking offer of it (a receiver was already waiting and has the total)
+	delivered := sx.Cut{Instrs: map[ssa.Instruction]bool{}, Edges: map[sx.Edge]bool{}}
+	for _, s := range sends {
+		if sx.Origins(s.Chan)["field:ProgressWriter."+status.Name()] && sx.Origins(s.X)["field:ProgressWriter."+size.Name()] {
+			delivered.Instrs[s] = true
+		}
+	}
+	sx.Instrs(cl, func(in ssa.Instruction) {
+		sel, ok := in.(*ssa.Select)
+		if !ok {
+			return
+		}
+		arms, ok := sx.SelectArms(sel)
+		if !ok {
+			return
+		}
+		for _, a := range arms {
+			if a.State != nil && a.State.Dir == types.SendOnly && sx.Origins(a.State.Chan)["field:ProgressWriter."+status.Name()] && sx.Origins(a.State.Send)["field:ProgressWriter."+size.Name()] {
+				delivered.Edges[a.Edge] = true
 			}
 		}
+	})
+	for i, c := range closes {
+		// some delivery lies on every path to the close
+		ok := len(delivered.Instrs)+len(delivered.Edges) > 0 && sx.MustPass(cl, nil, c, delivered)
 		r.Check(ok, "C19-R3", fmt.Sprintf("Close: final total sent before close #%d", i), p.Pos(c.Pos()), "a blocking send of size on the status channel lies on every path to close(status)", "close(status) is reachable without first sending the final total: the consumer's last value may be stale")
+	}
+	// …and Close always gets there: the only way past the send-and-close is a writer that has no status channel
+	{
+		cut := sx.Cut{Instrs: map[ssa.Instruction]bool{}, Edges: map[sx.Edge]bool{}}
+		for _, c := range closes {
+			cut.Instrs[c] = true
+		}
+		sx.Instrs(cl, func(in ssa.Instruction) {
+			if ld, ok := in.(*ssa.UnOp); ok && ld.Op == token.MUL {
+				if fa, ok := ld.X.(*ssa.FieldAddr); ok && sx.FieldOf(fa) == status {
+					nilE, _ := sx.NilEdges(ld)
+					for e := range nilE {
+						cut.Edges[e] = true
+					}
+				}
+			}
+		})
+		for i, ret := range sx.Returns(cl) {
+			ok := len(closes) > 0 && sx.MustPass(cl, nil, ret, cut)
+			r.Check(ok, "C19-R3", fmt.Sprintf("Close: return #%d is reached only after close(status) or without a status channel", i), p.Pos(ret.Pos()), "every path to the return closes the channel (after the final send) or found the channel nil", "Close can return without sending the final total and closing the status channel although the channel exists: the consumer waits forever for the end of the stream")
+		}
 	}
 	for _, ref := range sx.FieldRefs(p.ModuleFuncs(), status) {
 		fa, ok := ref.Instr.(*ssa.FieldAddr)
